@@ -25,9 +25,9 @@ import NmVerif.Basic
     transferBroadcastTo view/broadcast_to.hpp (dst_shape_type = the argument's type, dst_size = product type)
     transferTile       index/tile.hpp (shape_tile_t), view/tile.hpp (dst_size = product type)
     transferExpandDims index/expand_dims.hpp + reshape
-    transferSqueeze    index/squeeze.hpp + reshape           (mirrors the defect: clipped maxima squeezed as if extents)
+    transferSqueeze    index/squeeze.hpp + reshape
     transferReduce     index/remove_dims.hpp, view/ufunc/reduce.hpp:542-566 + decorator default bounded_size
-    transferUfunc1/2   index/ufunc.hpp, index/broadcast_shape.hpp:307-558 (mirrors the defect: clipped x run-time)
+    transferUfunc1/2   index/ufunc.hpp, index/broadcast_shape.hpp:307-558
     transferConcat     index/concatenate.hpp + decorator default (sum of the operands' sizes)
 -/
 namespace NmVerif.Static
@@ -388,7 +388,8 @@ def transferSqueeze (i : SInfo) : Option SInfo :=
   let d : ShapeK :=
     match a.shape with
     | .const l => .const (refSqueeze l)
-    | .clipped b => .clipped (refSqueeze b)      -- squeezes the MAXIMA (index/squeeze.hpp:78-98)
+    -- a clipped shape is squeezed at run time like any other run-time shape (index/squeeze.hpp, after the C11 fix)
+    | .clipped b => if b.length > 0 then .boundedDim b.length else .dyn
     | .fixedDim k => if k > 0 then .boundedDim k else .dyn
     | .boundedDim k => if k > 0 then .boundedDim k else .dyn
     | .dyn => .dyn
@@ -452,30 +453,44 @@ def bcastStaticTuple (va : List Nat) (arr : ShapeK) : ShapeK :=
 def bcastStaticArray (va : List Nat) (sv : ShapeK) : ShapeK :=
   if va.foldl min (va.headD 0) == 1 then sv else .clipped (List.replicate va.length (va.foldl max 0))
 
-/-- `resolve_optype<broadcast_shape_t>` (broadcast_shape.hpp:307-510) -/
+/-- the extents when the shape type is CONSTANT (a clipped type only knows maxima) -/
+def ShapeK.constv? : ShapeK → Option (List Nat)
+  | .const l => some l
+  | _ => none
+
+/-- both shape types hold run-time extents: only the rank survives -/
+def bcastLenK : LenK → LenK → ShapeK
+  | .fixed la, .fixed lb => .fixedDim (max la lb)
+  | .fixed la, .bounded bb => .boundedDim (max la bb)
+  | .bounded ba, .fixed lb => .boundedDim (max lb ba)
+  | .bounded ba, .bounded bb => .boundedDim (max ba bb)
+  | _, _ => .dyn
+
+/-- constant left operand, run-time right operand -/
+def bcastConstRt (va : List Nat) : LenK → ShapeK
+  | .fixed lb => if va.length ≥ lb then bcastStaticTuple va (.fixedDim (max va.length lb)) else .fixedDim (max va.length lb)
+  | .bounded bb => if va.length ≥ bb then bcastStaticArray va (.boundedDim (max va.length bb)) else .boundedDim (max va.length bb)
+  | .dyn => .dyn
+
+/-- run-time left operand, constant right operand -/
+def bcastRtConst (vb : List Nat) : LenK → ShapeK
+  | .fixed la => if vb.length ≥ la then bcastStaticTuple vb (.fixedDim (max la vb.length)) else .fixedDim (max la vb.length)
+  | .bounded ba => if vb.length ≥ ba then bcastStaticArray vb (.boundedDim (max vb.length ba)) else .boundedDim (max vb.length ba)
+  | .dyn => .dyn
+
+/-- `resolve_optype<broadcast_shape_t>` (broadcast_shape.hpp:307-510, after the C11 fix: the "static values of the longer
+    operand" shortcut is taken for CONSTANT shapes only) -/
 def broadcastShapeK (a b : ShapeK) : Option ShapeK :=
   match a.cvalue, b.cvalue with
   | some va, some vb =>
     (match refBroadcast va vb with
      | some r => some (if a.isConst && b.isConst then .const r else .clipped r)
      | none => if a.isConst && b.isConst then none else some (.fixedDim (max va.length vb.length)))
-  | some va, none =>
-    (match b.lenK with
-     | .fixed lb => some (if va.length ≥ lb then bcastStaticTuple va (.fixedDim (max va.length lb)) else .fixedDim (max va.length lb))
-     | .bounded bb => some (if va.length ≥ bb then bcastStaticArray va (.boundedDim (max va.length bb)) else .boundedDim (max va.length bb))
-     | .dyn => some .dyn)
-  | none, some vb =>
-    (match a.lenK with
-     | .fixed la => some (if vb.length ≥ la then bcastStaticTuple vb (.fixedDim (max la vb.length)) else .fixedDim (max la vb.length))
-     | .bounded ba => some (if vb.length ≥ ba then bcastStaticArray vb (.boundedDim (max vb.length ba)) else .boundedDim (max vb.length ba))
-     | .dyn => some .dyn)
-  | none, none =>
-    match a.lenK, b.lenK with
-    | .fixed la, .fixed lb => some (.fixedDim (max la lb))
-    | .fixed la, .bounded bb => some (.boundedDim (max la bb))
-    | .bounded ba, .fixed lb => some (.boundedDim (max lb ba))
-    | .bounded ba, .bounded bb => some (.boundedDim (max ba bb))
-    | _, _ => some .dyn
+  | _, _ =>
+    match a.constv?, b.constv? with
+    | some va, _ => some (bcastConstRt va b.lenK)
+    | none, some vb => some (bcastRtConst vb a.lenK)
+    | none, none => some (bcastLenK a.lenK b.lenK)
 
 def transferUfunc2 (i j : SInfo) : Option SInfo :=
   (broadcastShapeK i.seen.shape j.seen.shape).map (fun k => ufuncInfo k .any)
